@@ -34,6 +34,7 @@ MAX_CTX = 12
 E = ("e",)  # generic element field
 KEYS = ("keys",)
 COPYOF = ("<copyof>",)
+INIT_E = ("<inite>",)  # values a dict comprehension put under keys that are not known: later stores under a constant key shadow them
 
 MUTATING_METHODS = {
     "append", "extend", "insert", "pop", "remove", "add", "update", "clear",
@@ -384,7 +385,7 @@ class Interp:
         for a in v:
             if a[0] == "obj":
                 for (o, f), vals in list(self.heap.items()):
-                    if o == a and (f == E or f[0] == "k"):
+                    if o == a and (f == E or f == INIT_E or f[0] == "k"):
                         out |= vals
                 for s in self.hget(a, COPYOF):
                     out |= self.dict_values(frozenset([s]))
@@ -411,16 +412,18 @@ class Interp:
                     else:
                         out |= self.synth("getitem", a, keyval)
                     continue
-                if a in self.dictmaps:
+                shadowed = key is not None and bool(self.hget(a, ("k", key)))
+                if a in self.dictmaps and not shadowed:
                     out |= self._dictmap_read(a, key, fr)
                 if key is None:
                     for (o, f), vals in list(self.heap.items()):
-                        if o == a and (f == E or f[0] == "k"):
+                        if o == a and (f == E or f == INIT_E or f[0] == "k"):
                             out |= vals
                 else:
                     out |= self.hget(a, ("k", key))
                     out |= self.hget(a, E)
-                shadowed = key is not None and bool(self.hget(a, ("k", key)))
+                    if not shadowed:
+                        out |= self.hget(a, INIT_E)
                 for s in self.hget(a, COPYOF):
                     if not shadowed:
                         out |= self.read_key(frozenset([s]), key, fr, keyval)
@@ -738,7 +741,7 @@ class Interp:
                     k = "list"
                 n = self.alloc(fr, node, k)
                 for (o, f), vals in list(self.heap.items()):
-                    if o == a and (f == E or f == KEYS or f[0] == "k"):
+                    if o == a and (f == E or f == INIT_E or f == KEYS or f[0] == "k"):
                         self.hadd(n, E if (sliced and f[0] == "k") else f, vals)
                 for s in self.hget(a, COPYOF):
                     self.hadd(n, COPYOF, [s])
@@ -992,7 +995,7 @@ class Interp:
                 self.dictmaps[n] = (node.value, fr.module, fr.fn, fr.env, fr.ctx, g0.target.elts[0].id, g0.target.elts[1].id)
                 self.eval(sub, node.value)
             else:
-                self.hadd(n, E, self.eval(sub, node.value))
+                self.hadd(n, INIT_E, self.eval(sub, node.value))
         else:
             self.hadd(n, E, self.eval(sub, node.elt))
         return frozenset([n])
